@@ -7,6 +7,7 @@ import Driver.Fmt
 import Driver.RangeDrv
 import Driver.MatcherDrv
 import Driver.PrintDrv
+import Driver.ClausesDrv
 
 open Tromp
 
@@ -136,6 +137,7 @@ def main (args : List String) : IO UInt32 := do
   | ["range"] => Driver.rangeLoop stdin stdout; return 0
   | ["matcher"] => Driver.matcherLoop stdin stdout; return 0
   | ["print"] => Driver.printLoop stdin stdout; return 0
+  | ["clauses"] => Driver.clausesLoop stdin stdout; return 0
   | _ =>
     IO.eprintln "usage: tmodel world < script"
     return 2
